@@ -48,7 +48,7 @@ def f19_applies(ctoks, cells, pl):
 
 def run(ctx):
     from checks import detailed_common as dc
-    proof_ok, proof = common.proof_status_all(ctx, "C04", ["gaps1"])
+    proof_ok, proof = common.proof_status_all(ctx, "C04", ["gaps1", "C02_run"])
     n = 3000 if ctx.quick else 200000
     s = ctx.seed
     plan = [(0, n // 2, s + 10), (2, n // 2, s + 11), (16, n // 3, s + 12),
